@@ -71,7 +71,11 @@ fn deserialize_header<R: Read>(buf: &mut R) -> Result<(u8, u32, u32)> {
     let len = u16_from_u8s(&hdr[2..4]);
     let sid = u32_from_u8s(&hdr[4..]);
 
-    Ok((typ as u8, u32::from(len), sid))
+    // the type code is 16 bits on the wire; one that does not fit the 8-bit type is not a
+    // message we know (do not truncate it into one)
+    let typ = u8::try_from(typ)
+        .map_err(|_| super::Error(format!("unknown message type in header: {}", typ)))?;
+    Ok((typ, u32::from(len), sid))
 }
 
 #[derive(Clone, Debug, PartialEq)]
